@@ -28,6 +28,7 @@ func main() {
 	o.b.WriteString("From PintV Require Import Gen.Tables.\n\n")
 
 	var rows []string
+	var vcRows, vmRows []string // validate_calls, validate_methods
 	nvalidate := 0
 	for _, sub := range []string{"internal/config", "internal/checks"} {
 		p := loadPkg(filepath.Join(*srcDir, sub))
@@ -55,7 +56,16 @@ func main() {
 				if recv != "" {
 					fname = recv + "." + name
 				}
+				recvName := ""
+				if fd.Recv != nil && len(fd.Recv.List) == 1 && len(fd.Recv.List[0].Names) == 1 {
+					recvName = fd.Recv.List[0].Names[0].Name
+				}
+				if isValidate && recv != "" && sub == "internal/config" {
+					vmRows = append(vmRows, cs(recv))
+				}
 				rangeVars := map[string]string{}
+				// calls of the shape `if err[:]= CALL; err != nil { ...; return ... }`: the error of CALL rejects the configuration
+				checked := map[*ast.CallExpr]bool{}
 				var walk func(n ast.Node, guard string)
 				walk = func(n ast.Node, guard string) {
 					switch s := n.(type) {
@@ -68,6 +78,15 @@ func main() {
 						walk(s.Body, guard)
 						return
 					case *ast.IfStmt:
+						if as, ok := s.Init.(*ast.AssignStmt); ok && len(as.Rhs) == 1 && len(s.Body.List) > 0 {
+							if ce, ok := as.Rhs[0].(*ast.CallExpr); ok {
+								if be, ok := s.Cond.(*ast.BinaryExpr); ok && be.Op == token.NEQ && src(be.Y) == "nil" && src(be.X) == src(as.Lhs[len(as.Lhs)-1]) {
+									if _, ok := s.Body.List[len(s.Body.List)-1].(*ast.ReturnStmt); ok {
+										checked[ce] = true
+									}
+								}
+							}
+						}
 						if s.Init != nil {
 							walk(s.Init, guard)
 						}
@@ -83,6 +102,23 @@ func main() {
 						return
 					case *ast.CallExpr:
 						callee := oneLine(src(s.Fun))
+						// a nested block handed to its own validate method: `<owner>.<Field>.validate()` / range variable over `<owner>.<Field>`
+						if se, ok := s.Fun.(*ast.SelectorExpr); ok && se.Sel.Name == "validate" && sub == "internal/config" {
+							path := oneLine(src(se.X))
+							if id, ok := se.X.(*ast.Ident); ok {
+								if rv, ok := rangeVars[id.Name]; ok {
+									path = strings.TrimSuffix(rv, "[]")
+								}
+							}
+							owner, field := "?", path
+							switch {
+							case recvName != "" && strings.HasPrefix(path, recvName+"."):
+								owner, field = recv, strings.TrimPrefix(path, recvName+".")
+							case isLoad && strings.HasPrefix(path, "cfg."):
+								owner, field = "Config", strings.TrimPrefix(path, "cfg.")
+							}
+							vcRows = append(vcRows, fmt.Sprintf("{| vc_func := %s; vc_owner := %s; vc_field := %s; vc_error_returned := %s |}", cs(fname), cs(owner), cs(field), cbool(checked[s])))
+						}
 						var as []string
 						for _, a := range s.Args {
 							t := oneLine(src(a))
@@ -122,6 +158,71 @@ func main() {
 	}
 	o.b.WriteString("Record validator := { v_file : string; v_func : string; v_callee : string; v_arg : string; v_guard : string }.\n\n")
 	o.def("validators", "list validator", "[\n   "+strings.Join(rows, ";\n   ")+"\n  ]")
+
+	// the configuration schema: every `hcl:"<name>,block"` field of a struct of internal/config, with its element type
+	{
+		p := loadPkg(filepath.Join(*srcDir, "internal/config"))
+		var cb []string
+		for _, fn := range p.names {
+			for _, d := range p.files[fn].Decls {
+				gd, ok := d.(*ast.GenDecl)
+				if !ok || gd.Tok != token.TYPE {
+					continue
+				}
+				for _, sp := range gd.Specs {
+					ts := sp.(*ast.TypeSpec)
+					st, ok := ts.Type.(*ast.StructType)
+					if !ok {
+						continue
+					}
+					for _, f := range st.Fields.List {
+						if f.Tag == nil {
+							continue
+						}
+						tag := f.Tag.Value
+						i := strings.Index(tag, `hcl:"`)
+						if i < 0 {
+							continue
+						}
+						h := tag[i+5:]
+						h = h[:strings.Index(h, `"`)]
+						parts := strings.Split(h, ",")
+						if len(parts) != 2 || parts[1] != "block" {
+							continue
+						}
+						if len(f.Names) != 1 {
+							fatal("config schema: block field without a single name at %s", pos(f))
+						}
+						t := f.Type
+						for {
+							switch x := t.(type) {
+							case *ast.StarExpr:
+								t = x.X
+								continue
+							case *ast.ArrayType:
+								t = x.Elt
+								continue
+							}
+							break
+						}
+						id, ok := t.(*ast.Ident)
+						if !ok {
+							fatal("config schema: block field %s.%s has a type this translator does not know: %s (%s)", ts.Name.Name, f.Names[0].Name, src(f.Type), pos(f))
+						}
+						cb = append(cb, fmt.Sprintf("{| cb_struct := %s; cb_field := %s; cb_hcl := %s; cb_type := %s |}", cs(ts.Name.Name), cs(f.Names[0].Name), cs(parts[0]), cs(id.Name)))
+					}
+				}
+			}
+		}
+		if len(cb) < 30 {
+			fatal("config schema: only %d block fields found", len(cb))
+		}
+		o.b.WriteString("Record config_block := { cb_struct : string; cb_field : string; cb_hcl : string; cb_type : string }.\n\n")
+		o.def("config_blocks", "list config_block", "[\n   "+strings.Join(cb, ";\n   ")+"\n  ]")
+		o.b.WriteString("Record validate_call := { vc_func : string; vc_owner : string; vc_field : string; vc_error_returned : bool }.\n\n")
+		o.def("validate_calls", "list validate_call", "[\n   "+strings.Join(vcRows, ";\n   ")+"\n  ]")
+		o.def("validate_methods", "list string", "["+strings.Join(vmRows, "; ")+"]")
+	}
 
 	// cmd/pint sites (same detection as core genDropped)
 	rows = nil
@@ -216,6 +317,95 @@ func main() {
 		}
 	}
 	o.def("regexp_helper_calls", "list dropped_site", "[\n   "+strings.Join(rows, ";\n   ")+"\n  ]")
+
+	// the nearest enclosing `X != ""` condition of every dropped-error / Must* / regexp-helper call (the USE side of
+	// "validated only when non-empty"): keyed like a dropped_site
+	rows = nil
+	for _, sub := range []string{"internal/config", "internal/checks", "cmd/pint"} {
+		p := loadPkg(filepath.Join(*srcDir, sub))
+		for _, fn := range p.names {
+			for _, d := range p.files[fn].Decls {
+				fd, ok := d.(*ast.FuncDecl)
+				if !ok || fd.Body == nil {
+					continue
+				}
+				rangeVars := map[string]string{}
+				dropped := map[*ast.CallExpr]bool{}
+				var walk func(n ast.Node, guard string)
+				walk = func(n ast.Node, guard string) {
+					switch s := n.(type) {
+					case nil:
+						return
+					case *ast.RangeStmt:
+						if id, ok := s.Value.(*ast.Ident); ok && id.Name != "_" {
+							rangeVars[id.Name] = oneLine(src(s.X)) + "[]"
+						}
+						walk(s.Body, guard)
+						return
+					case *ast.IfStmt:
+						if s.Init != nil {
+							walk(s.Init, guard)
+						}
+						g := guard
+						if be, ok := s.Cond.(*ast.BinaryExpr); ok && be.Op == token.NEQ && src(be.Y) == `""` {
+							g = oneLine(src(s.Cond))
+						}
+						walk(s.Cond, guard)
+						walk(s.Body, g)
+						if s.Else != nil {
+							walk(s.Else, guard)
+						}
+						return
+					case *ast.AssignStmt:
+						if len(s.Lhs) == 2 && len(s.Rhs) == 1 {
+							if id, ok := s.Lhs[1].(*ast.Ident); ok && id.Name == "_" {
+								if ce, ok := s.Rhs[0].(*ast.CallExpr); ok {
+									dropped[ce] = true
+								}
+							}
+						}
+					case *ast.CallExpr:
+						fnm := oneLine(src(s.Fun))
+						base := fnm
+						if i := strings.LastIndex(base, "."); i >= 0 {
+							base = base[i+1:]
+						}
+						if dropped[s] || (strings.HasPrefix(base, "Must") && fd.Name.Name != base) || base == "matchRegex" || base == "strictRegex" {
+							a := oneLine(argsSrc(s))
+							if len(s.Args) == 1 {
+								if id, ok := s.Args[0].(*ast.Ident); ok && (base == "matchRegex" || base == "strictRegex") {
+									if rv, ok := rangeVars[id.Name]; ok {
+										a = rv
+									}
+								}
+							}
+							rows = append(rows, fmt.Sprintf("{| sg_file := %s; sg_func := %s; sg_callee := %s; sg_args := %s; sg_guard := %s |}",
+								cs(sub+"/"+fn), cs(fd.Name.Name), cs(fnm), cs(a), cs(guard)))
+						}
+						for _, a := range s.Args {
+							walk(a, guard)
+						}
+						walk(s.Fun, guard)
+						return
+					}
+					ast.Inspect(n, func(c ast.Node) bool {
+						if c == n || c == nil {
+							return true
+						}
+						switch c.(type) {
+						case *ast.RangeStmt, *ast.IfStmt, *ast.CallExpr, *ast.AssignStmt:
+							walk(c, guard)
+							return false
+						}
+						return true
+					})
+				}
+				walk(fd.Body, "")
+			}
+		}
+	}
+	o.b.WriteString("Record site_guard := { sg_file : string; sg_func : string; sg_callee : string; sg_args : string; sg_guard : string }.\n\n")
+	o.def("site_guards", "list site_guard", "[\n   "+strings.Join(rows, ";\n   ")+"\n  ]")
 
 	o.write(*outPath, *jsonPath)
 }
